@@ -13,7 +13,13 @@ package main
 //	    buffers while every row is checked; no string inside a returned row may point
 //	    into a scan buffer ever handed out; the scan-buffer event log (get / put /
 //	    materialize) is replayed through the ownership model;
-//	(d) scan-buffer pool capacities against the model's class arithmetic.
+//	(d) scan-buffer pool capacities against the model's class arithmetic;
+//	(e) the pooled block read on its own (readPooledBlockRowData) for every stored block, with the
+//	    metadata as the engine wrote it and as a legacy writer recorded it (empty Compression value):
+//	    while the caller holds the returned row data, other scans draw buffers of the same classes from
+//	    the pool and fill them; the row data must stay what the file says and the get/put log must
+//	    replay through the ownership model. The same legacy view of the metadata (a MetaStore that
+//	    yields "" for uncompressed blocks) is queried end to end in (b) and (c).
 
 import (
 	"bytes"
@@ -41,10 +47,12 @@ func runC03(c *Ctx) {
 		"json.Number, nested typed containers, and json.RawMessage fragments (duplicate keys, odd whitespace, invalid UTF-8, exotic number spellings), " +
 		"ingested through real engines (all compressions, partitioning) and read back with full-scan and bloom queries; (a) every stored block of those engines; " +
 		"(c) in-place mutation of every returned map/slice then re-query, 8 concurrent readers over blocks from 1 KiB to 256 KiB with the scan-buffer event log " +
-		"replayed through the ownership model and a pointer-range check of every returned string; (d) pool get/put at class boundaries. " +
+		"replayed through the ownership model and a pointer-range check of every returned string; (d) pool get/put at class boundaries; " +
+		"(e) readPooledBlockRowData on every stored block while other scans draw and fill buffers of the same pool classes; " +
+		"(b), (c), (e) also over the legacy spelling of the metadata (uncompressed blocks whose Compression value is empty, served by a MetaStore). " +
 		"Non-trivial: a returned row compared with its JSON round trip; an event log with buffer reuse; distinct by row JSON / log."
 	sh := c.newShard("t03", runnerT, "caseT", "mismatches", "violations")
-	sh.limit = 150
+	sh.limit = 40
 	c03Fidelity(c, sh)
 	c03Independence(c, sh)
 	c03Pool(c, sh)
@@ -205,6 +213,10 @@ func c03Fidelity(c *Ctx, sh *shard) {
 	nWorlds := c.pick(8, 150)
 	for wi := 0; wi < nWorlds; wi++ {
 		tc := c.tGenConfig()
+		if wi%4 == 3 {
+			tc.cfg.RowDataCompression = bs.CompressionNone
+			tc.desc += " (forced comp=none)"
+		}
 		w := c.tNewWorld(tc)
 		n := 10 + c.intn(40)
 		rows := make([]map[string]any, 0, n)
@@ -216,9 +228,18 @@ func c03Fidelity(c *Ctx, sh *shard) {
 			rows = append(rows, r)
 		}
 		c.tIngest(w, rows)
-		c03CheckResults(c, w, nil, "full-scan", wi)
-		c03CheckResults(c, w, bs.NewQuery().Field("id").Build(), "field(id)", wi)
+		c03CheckResults(c, w, w.eng, nil, "full-scan", wi)
+		c03CheckResults(c, w, w.eng, bs.NewQuery().Field("id").Build(), "field(id)", wi)
+		if tc.cfg.RowDataCompression == bs.CompressionNone {
+			leg := w.legacyEngine()
+			c03CheckResults(c, w, leg, nil, "full-scan over legacy metadata", wi)
+			c03CheckResults(c, w, leg, bs.NewQuery().Field("id").Build(), "field(id) over legacy metadata", wi)
+			c.dist("c03_metadata", "legacy empty compression")
+		} else {
+			c.dist("c03_metadata", "as written")
+		}
 		c03Framing(c, sh, w, wi)
+		c03PooledRead(c, sh, w, wi)
 		w.stop()
 	}
 }
@@ -232,10 +253,17 @@ func (w *tWorld) expected(id int) (map[string]any, bool) {
 	return m, true
 }
 
-func c03CheckResults(c *Ctx, w *tWorld, q *bs.Query, qname string, wi int) (rows []map[string]any) {
-	got, qerr, serr := collect(w.eng, q)
+// legacyEngine is a query-only engine over the same stores whose MetaStore yields the legacy spelling.
+func (w *tWorld) legacyEngine() *bs.BloomSearchEngine {
+	eng, err := bs.NewBloomSearchEngine(w.tc.cfg, legacyMetaStore{w.meta}, w.store)
+	must(err)
+	return eng
+}
+
+func c03CheckResults(c *Ctx, w *tWorld, eng *bs.BloomSearchEngine, q *bs.Query, qname string, wi int) (rows []map[string]any) {
+	got, qerr, serr := collect(eng, q)
 	if serr != nil || qerr != nil {
-		c.violation("c03-query-error", fmt.Sprintf("query %s failed on healthy stores: %v %v", qname, serr, qerr), map[string]any{"world": wi})
+		c.violation("c03-query-error", fmt.Sprintf("query %s failed on healthy stores: %v %v", qname, serr, qerr), map[string]any{"world": wi, "config": w.tc.desc})
 		return nil
 	}
 	seen := map[int]int{}
@@ -458,15 +486,26 @@ func scribble(v any, depth int) {
 }
 
 func c03Independence(c *Ctx, sh *shard) {
-	nWorlds := c.pick(4, 40)
+	nWorlds := c.pick(6, 48)
 	for wi := 0; wi < nWorlds; wi++ {
 		tc := c.tGenConfig()
+		// every third world is read through the legacy spelling of its metadata (uncompressed blocks, Compression "")
+		legacy := wi%3 == 2
+		if legacy {
+			tc.cfg.RowDataCompression = bs.CompressionNone
+			tc.desc += " (comp=none, queried over legacy metadata)"
+		}
 		// blocks of very different sizes, so pooled buffers move between classes and blocks
 		tc.cfg.MaxRowGroupRows = 40
 		tc.cfg.MaxRowGroupBytes = 1 << 20
 		tc.cfg.MaxBufferedRows = 30 + c.intn(60)
 		tc.cfg.MaxQueryConcurrency = 2 + c.intn(8)
 		w := c.tNewWorld(tc)
+		qeng := w.eng
+		if legacy {
+			qeng = w.legacyEngine()
+		}
+		c.dist("c03_independence_metadata", map[bool]string{true: "legacy empty compression", false: "as written"}[legacy])
 		n := 80 + c.intn(120)
 		rows := make([]map[string]any, n)
 		for i := range rows {
@@ -508,8 +547,8 @@ func c03Independence(c *Ctx, sh *shard) {
 		}
 
 		// sequential: query, check, scribble, query again, check; two live results at once
-		a, _, _ := collect(w.eng, nil)
-		b, _, _ := collect(w.eng, nil)
+		a, _, _ := collect(qeng, nil)
+		b, _, _ := collect(qeng, nil)
 		verify(a, "first query")
 		pointers(a, "first query")
 		for _, r := range a {
@@ -533,7 +572,7 @@ func c03Independence(c *Ctx, sh *shard) {
 		if odd > 0 {
 			c.violation("c03-independence", fmt.Sprintf("%d rows changed when other rows of the same result were overwritten in place", odd), map[string]any{"world": wi})
 		}
-		d, _, _ := collect(w.eng, nil)
+		d, _, _ := collect(qeng, nil)
 		verify(d, "query after returned rows were overwritten in place")
 		pointers(d, "re-query")
 		c.count([]string{"C03"}, fmt.Sprintf("indep-seq-%d-%d", wi, len(a)), true, map[string]any{"phase": "mutate-and-requery", "rows": len(a), "config": tc.desc})
@@ -547,7 +586,7 @@ func c03Independence(c *Ctx, sh *shard) {
 			go func(g int) {
 				defer wg.Done()
 				for k := 0; k < 3; k++ {
-					got, qerr, serr := collect(w.eng, nil)
+					got, qerr, serr := collect(qeng, nil)
 					if qerr != nil || serr != nil {
 						got = nil
 					}
@@ -589,6 +628,93 @@ func (c *Ctx) c03RowPlain(id, partitions int) map[string]any {
 	row := c.tRow(id, partitions)
 	row["nested"] = map[string]any{"list": []any{"a", float64(id), map[string]any{"deep": c.tText()}}, "s": c.tText()}
 	return row
+}
+
+// ---------------------------------------------------------------- (e) the pooled block read on its own
+
+// c03PooledRead drives readPooledBlockRowData the way a block scan does, one block at a time, and plays
+// the other scans itself: between the read and its release it draws buffers of the same pool classes,
+// fills them (another block being read) and returns them. What the caller holds must stay the file's
+// row data until release, and the get/put/use log must replay through the ownership model.
+func c03PooledRead(c *Ctx, sh *shard, w *tWorld, wi int) {
+	for _, f := range w.files() {
+		for i := range f.meta.DataBlocks {
+			orig := f.meta.DataBlocks[i]
+			if orig.UncompressedSize > 6000 && !c.thorough() || orig.RowDataSize == 0 {
+				continue
+			}
+			var want []byte
+			switch orig.Compression {
+			case bs.CompressionNone:
+				want = append([]byte(nil), f.data[orig.RowDataOffset:orig.RowDataOffset+orig.RowDataSize]...)
+			default:
+				d, ok := libDecompress(orig.Compression, f.data[orig.RowDataOffset:orig.RowDataOffset+orig.RowDataSize], 1<<24)
+				if !ok {
+					c.violation("c03-pooled-read", "a healthy block does not decompress with the library", map[string]any{"world": wi, "file": f.pointer, "block": i})
+					continue
+				}
+				want = d
+			}
+			variants := []bs.DataBlockMetadata{orig}
+			if orig.Compression == bs.CompressionNone {
+				leg := orig
+				leg.Compression = ""
+				variants = append(variants, leg)
+			}
+			for _, b := range variants {
+				spelling := "as written"
+				if b.Compression == "" {
+					spelling = "legacy empty compression"
+				}
+				desc := map[string]any{"kind": "pooled-read", "world": wi, "file": f.pointer, "block": i, "compression": string(orig.Compression), "metadata": spelling,
+					"row_data_size": b.RowDataSize, "uncompressed_size": b.UncompressedSize, "config": w.tc.desc}
+				log := &ownLog{}
+				bs.VerifSetSink(log.sink)
+				rd, release, err := bs.VerifReadPooledBlockRowData(bytes.NewReader(f.data), &b)
+				if err != nil {
+					bs.VerifSetSink(nil)
+					c.violation("c03-pooled-read", "readPooledBlockRowData failed on a healthy block ("+spelling+"): "+err.Error(), desc)
+					continue
+				}
+				nRead := len(log.events)
+				// other scans: same classes as the compressed and the decoded buffer
+				var others [][]byte
+				for _, size := range []int{b.RowDataSize, len(want), b.RowDataSize} {
+					o := bs.VerifGetScanBuffer(size)
+					if cap(o) == 0 {
+						continue
+					}
+					full := o[:cap(o)]
+					log.sink(bs.VerifEvent{Kind: "sb.get", A: int64(size), S: unsafe.String(&full[0], len(full))})
+					for j := range full {
+						full[j] = 0xA5
+					}
+					others = append(others, o)
+				}
+				intact := bytes.Equal(rd, want)
+				if len(rd) > 0 { // the scan uses its row data now
+					log.sink(bs.VerifEvent{Kind: "scan.row", S: unsafe.String(&rd[0], len(rd))})
+				}
+				for _, o := range others {
+					bs.VerifPutScanBuffer(o)
+				}
+				nRelease := len(log.events)
+				release()
+				bs.VerifSetSink(nil)
+				if !intact {
+					c.violation("c03-pooled-read", fmt.Sprintf("row data held by a block scan (%s metadata, %s) changed when other scans drew buffers from the pool: the live buffer was in the pool before its release",
+						spelling, orig.Compression), desc)
+				}
+				events := append([]string(nil), log.events...)
+				desc["events"] = len(events)
+				sh.add(c, fmt.Sprintf("TOwn %s %s", coqN(0), coqList(events)), desc)
+				// the call on its own against the program of Model/ScanPool.v (which buffers it draws, returns and releases)
+				sh.add(c, fmt.Sprintf("TPooled %s %s %s", coqComp(b.Compression), coqList(events[:nRead]), coqList(events[nRelease:])), desc)
+				c.count([]string{"C03"}, fmt.Sprintf("pooled-%d-%s-%d-%s", wi, f.pointer, i, spelling), true, desc)
+				c.dist("c03_pooled_read", string(orig.Compression)+" / "+spelling)
+			}
+		}
+	}
 }
 
 // ---------------------------------------------------------------- (d) pool
